@@ -4,6 +4,7 @@ import (
 	"encoding/json"
 	"fmt"
 	"os"
+	"path/filepath"
 
 	"github.com/syndtr/goleveldb/leveldb"
 	"github.com/syndtr/goleveldb/leveldb/opt"
@@ -206,7 +207,119 @@ type c18Own struct {
 	Script []string `json:"script"`
 }
 
+// runC18FileRO: a real directory, left behind by an earlier session in one of several states
+// (clean; a stale CURRENT.<n> as after a crash between writing it and renaming it over CURRENT;
+// a CURRENT.bak; a stray temporary file), is opened READ-ONLY through the file storage: all
+// data is served, writes are refused, and afterwards the directory is byte for byte what it was.
+func runC18FileRO(variant string) []string {
+	var viol []string
+	bad := func(f string, a ...any) {
+		viol = append(viol, fmt.Sprintf("file storage, read-only open, %s: ", variant)+fmt.Sprintf(f, a...))
+	}
+	dir, err := os.MkdirTemp("", "verif-c18ro-")
+	if err != nil {
+		return []string{err.Error()}
+	}
+	defer os.RemoveAll(dir)
+	o := harness.Config{Name: "flushy/bytewise"}.Options()
+	want := map[string]string{}
+	for session := 0; session < 2; session++ {
+		db, err := leveldb.OpenFile(dir, o)
+		if err != nil {
+			return []string{"setup: " + err.Error()}
+		}
+		for i, k := range []string{"a", "b", "c"} {
+			v := fmt.Sprintf("s%d-%d", session, i)
+			if session == 1 && k == "b" {
+				db.Delete([]byte(k), &opt.WriteOptions{Sync: true})
+				delete(want, k)
+				continue
+			}
+			db.Put([]byte(k), []byte(v), &opt.WriteOptions{Sync: true})
+			want[k] = v
+		}
+		if session == 0 {
+			db.CompactRange(util.Range{})
+		}
+		db.Close()
+	}
+	cur, _ := os.ReadFile(filepath.Join(dir, "CURRENT"))
+	switch variant {
+	case "clean":
+	case "stale-current-n":
+		os.WriteFile(filepath.Join(dir, "CURRENT.999"), []byte("MANIFEST-000999\n"), 0o644)
+	case "pending-current-n":
+		os.WriteFile(filepath.Join(dir, "CURRENT.7"), cur, 0o644)
+	case "current-bak":
+		os.WriteFile(filepath.Join(dir, "CURRENT.bak"), cur, 0o644)
+	case "stray-tmp":
+		os.WriteFile(filepath.Join(dir, "000099.tmp"), []byte("junk"), 0o644)
+	}
+	snap := func() map[string]string {
+		m := map[string]string{}
+		ents, _ := os.ReadDir(dir)
+		for _, e := range ents {
+			b, _ := os.ReadFile(filepath.Join(dir, e.Name()))
+			m[e.Name()] = string(b)
+		}
+		return m
+	}
+	before := snap()
+	stor, err := storage.OpenFile(dir, true)
+	if err != nil {
+		bad("storage.OpenFile(readOnly): %v", err)
+		return viol
+	}
+	ro := harness.Config{Name: "flushy/bytewise"}.Options()
+	ro.ReadOnly = true
+	db, err := leveldb.Open(stor, ro)
+	if err != nil {
+		bad("Open: %v", err)
+		stor.Close()
+		return viol
+	}
+	for _, k := range []string{"a", "b", "c"} {
+		v, err := db.Get([]byte(k), nil)
+		w, has := want[k]
+		if has && (err != nil || string(v) != w) {
+			bad("Get(%q) = %q, %v; written %q", k, v, err, w)
+		}
+		if !has && err != leveldb.ErrNotFound {
+			bad("Get(%q) = %q, %v; the key was deleted", k, v, err)
+		}
+	}
+	if err := db.Put([]byte("a"), []byte("x"), nil); err != leveldb.ErrReadOnly {
+		bad("Put returned %v, want ErrReadOnly", err)
+	}
+	db.Close()
+	stor.Close()
+	after := snap()
+	for n, c := range before {
+		c2, ok := after[n]
+		switch {
+		case !ok:
+			bad("file %s was deleted", n)
+		case c2 != c:
+			bad("file %s was modified", n)
+		}
+	}
+	for n := range after {
+		if _, ok := before[n]; !ok {
+			bad("file %s was created", n)
+		}
+	}
+	return viol
+}
+
 func runC18Own(t *c18Own) []string {
+	if t.Stor == "file-ro" {
+		var viol []string
+		r := vsched.Run(vsched.Options{}, func() { viol = runC18FileRO(t.Script[0]) })
+		if r.Verdict != vsched.Completed {
+			viol = append(viol, fmt.Sprintf("file storage, read-only open, %s: execution ended with %s: %v", t.Script[0], r.Verdict, r.PanicValue))
+		}
+		return viol
+	}
 	var viol []string
 	vsched.Run(vsched.Options{}, func() {
 		var stor storage.Storage
@@ -314,6 +427,11 @@ func init() {
 					metas = append(metas, m)
 					raw = append(raw, explore.MustJSON(m))
 				}
+			}
+			for _, v := range []string{"clean", "stale-current-n", "pending-current-n", "current-bak", "stray-tmp"} {
+				m := c18Own{Kind: "own", Stor: "file-ro", Script: []string{v}}
+				metas = append(metas, m)
+				raw = append(raw, explore.MustJSON(m))
 			}
 			pool.Map(raw, func(i int, b []byte, err error) {
 				var r struct {
